@@ -49,7 +49,7 @@ extern "C" void h_GetLiteralStr()
 {
     IN_ARR(char, in_s, SN); IN(unsigned, in_len);
     __CPROVER_assume(in_len <= SN);
-    for (int i = 0; i < SN; i++) __CPROVER_assume(in_s[i] != 0 && in_s[i] != '\\');
+    for (int i = 0; i < SN; i++) __CPROVER_assume(in_s[i] != 0);
     script(in_s, in_len);
     istream in; in._m_state = 0; in._m_have = 0; in._m_consumed = 0;
     ErrorDescriptor err;
@@ -58,14 +58,18 @@ extern "C" void h_GetLiteralStr()
     if (i == n || in_s[i] != '\'') {
         __CPROVER_assert(r.size() == 0 && in._m_consumed == (unsigned long)i && err.severity() == SEVERITY_NULL, "C09 where no string literal starts nothing is consumed and nothing is returned");
     } else {
-        /* spec: find the closing quote: the first quote after the opening one that is not the first of a doubled pair */
+        /* spec: find the closing quote: the first quote after the opening one that is neither the first of a doubled pair nor the
+         * character of an \S\ directive (the three characters before it, inside the literal, are \S\); any other reverse solidus -
+         * a doubled one, the end of an \X2\...\X0\ directive - does not protect the quote that follows it */
         int pos = i + 1, close = -1;
-        for (int k = 0; k < SN; k++) { if (close < 0 && pos < n) { if (in_s[pos] == '\'') { if (pos + 1 < n && in_s[pos + 1] == '\'') pos += 2; else close = pos; } else pos++; } }
+        for (int k = 0; k < SN; k++) { if (close < 0 && pos < n) { if (in_s[pos] == '\'') {
+              if (pos - i >= 3 && in_s[pos - 3] == '\\' && in_s[pos - 2] == 'S' && in_s[pos - 1] == '\\') pos++;
+              else if (pos + 1 < n && in_s[pos + 1] == '\'') pos += 2; else close = pos; } else pos++; } }
         if (close >= 0) {
             __CPROVER_assert(err.severity() == SEVERITY_NULL && in._m_consumed == (unsigned long)(close + 1), "C09 a string literal is consumed up to and including its closing quote, and no further");
             int ok = (int)r.size() == close + 1 - i;
             for (int k = 0; k < SN; k++) if (i + k <= close && r[k] != in_s[i + k]) ok = 0;
-            __CPROVER_assert(ok, "C09 the string value returned is exactly the literal's text, quotes and doubled quotes included");
+            __CPROVER_assert(ok, "C09/C01 the string value returned is exactly the literal's text - quotes, doubled quotes, reverse solidi and control directives included");
         } else {
             __CPROVER_assert(err.severity() <= SEVERITY_INPUT_ERROR, "C09/C03 an unterminated string literal is an input error");
         }
